@@ -188,10 +188,14 @@ fn fill_thread_stack(
     thread.stack.memory.rva = buffer.position() as u32;
 
     if let Ok((valid_stack_ptr, stack_len)) = dumper.get_stack_info(stack_ptr) {
-        let stack_len = if let MaxStackLen::Len(max_stack_len) = max_stack_len {
-            min(stack_len, max_stack_len)
+        let (valid_stack_ptr, stack_len) = if let MaxStackLen::Len(max_stack_len) = max_stack_len {
+            // Skip whole chunks of `max_stack_len` below the stack pointer so that the
+            // shortened region still contains it (and the frames right above it).
+            let skip = stack_ptr.saturating_sub(valid_stack_ptr) / max_stack_len * max_stack_len;
+            let skip = min(skip, stack_len);
+            (valid_stack_ptr + skip, min(stack_len - skip, max_stack_len))
         } else {
-            stack_len
+            (valid_stack_ptr, stack_len)
         };
 
         let mut stack_bytes = PtraceDumper::copy_from_process(
